@@ -299,3 +299,27 @@ package keeper
 //@ ensures [at_most_one_entry_per_query] count(oracle.Cyclelist) <= old(count(oracle.Cyclelist)) + len(queries)
 //@ loop 0 "for _, querydata := range queries"
 //@ loop 0 invariant [entries_so_far] ($i > 0 ==> count(oracle.Cyclelist) >= 1) && count(oracle.Cyclelist) <= old(count(oracle.Cyclelist)) + $i
+
+//@ func (k Keeper).InitializeQuery(ctx, querydata) (query, err)
+//@ requires [round_counter_below_2_64] oracle.QuerySequencer < 18446744073709551615
+//@ modifies oracle.QuerySequencer
+//@ ensures [fresh_round_id] err == nil ==> query.Id == old(oracle.QuerySequencer) && oracle.QuerySequencer == old(oracle.QuerySequencer) + 1 && !query.HasRevealedReports && !query.CycleList && query.Expiration == 0
+//@ ensures [counter_only_moves_forward] oracle.QuerySequencer >= old(oracle.QuerySequencer) && oracle.QuerySequencer <= old(oracle.QuerySequencer) + 1
+
+//@ func (k Keeper).ClearOldqueries(ctx, queryId) (err)
+//@ modifies oracle.Query
+//@ ensures [never_fails] err == nil
+//@ ensures [removes_only_closed_untipped_rounds_without_reports] forall q bytes :: forall i int :: !has(oracle.Query, pair(q, i)) && old(has(oracle.Query, pair(q, i))) ==> q == bytes(queryId) && old(oracle.Query[pair(q, i)]).Expiration < blockheight(ctx) && !old(oracle.Query[pair(q, i)]).HasRevealedReports && old(oracle.Query[pair(q, i)]).Amount == 0
+//@ ensures [adds_and_changes_nothing] forall q bytes :: forall i int :: (has(oracle.Query, pair(q, i)) ==> old(has(oracle.Query, pair(q, i)))) && oracle.Query[pair(q, i)] == old(oracle.Query[pair(q, i)])
+//@ iter 0 invariant [removed_so_far_were_closed_untipped_without_reports] forall q bytes :: forall i int :: !has(oracle.Query, pair(q, i)) && old(has(oracle.Query, pair(q, i))) ==> q == bytes(queryId) && old(oracle.Query[pair(q, i)]).Expiration < blockheight(ctx) && !old(oracle.Query[pair(q, i)]).HasRevealedReports && old(oracle.Query[pair(q, i)]).Amount == 0
+//@ iter 0 invariant [nothing_added_or_changed] forall q bytes :: forall i int :: (has(oracle.Query, pair(q, i)) ==> old(has(oracle.Query, pair(q, i)))) && oracle.Query[pair(q, i)] == old(oracle.Query[pair(q, i)])
+
+//@ func (k Keeper).RotateQueries(ctx) (err)
+//@ requires [rotation_counter_within_the_list] oracle.CyclelistSequencer < count(oracle.Cyclelist)
+//@ requires [round_counter_below_2_64] oracle.QuerySequencer < 18446744073709551615
+//@ requires [windows_fit] forall q bytes :: forall i int :: blockheight(ctx) + oracle.Query[pair(q, i)].RegistrySpecBlockWindow < 18446744073709551616
+//@ modifies oracle.Query, oracle.CyclelistSequencer, oracle.QuerySequencer
+//@ ensures [no_rotation_while_the_current_window_is_open] ret(CurrentQuery, 1) == nil && ret(CurrentQuery, 0).Expiration > blockheight(ctx) && !called(GetCyclelist) ==> err == nil && nothing_written()
+//@ ensures [open_window_is_detected] old(oracle.CyclelistSequencer) != oracle.CyclelistSequencer ==> called(GetCyclelist)
+//@ ensures [moves_to_the_next_query_wrapping_around] called(GetCyclelist) ==> oracle.CyclelistSequencer == (old(oracle.CyclelistSequencer) + 1 < count(oracle.Cyclelist) ? old(oracle.CyclelistSequencer) + 1 : 0)
+//@ ensures [rotation_counter_stays_within_the_list] oracle.CyclelistSequencer < count(oracle.Cyclelist)
